@@ -32,7 +32,8 @@ pub const EXTS: [(&str, &str); 16] = [
     ("pdf", "application/pdf"),
 ];
 const OMITTABLE: [&str; 3] = ["html", "txt", "json"];
-const NAMES: [&str; 10] = ["a", "ab", "index", "data", "x.y", "a-b", "a_b", "0", "A", "users"];
+const DOTTED: [&str; 3] = [".html", ".txt", ".json"];
+const NAMES: [&str; 14] = ["a", "ab", "index", "data", "x.y", "a-b", "a_b", "0", "A", "users", "page.html", "a.txt", "index.html", "x.json"];
 const DIRS: [&str; 5] = ["d", "sub", "assets", "a", "x-1"];
 
 #[derive(Debug, Clone, Serialize, Deserialize, PartialEq)]
@@ -55,6 +56,9 @@ pub struct Case {
     pub files: Vec<FileDesc>,
     /// a file next to (not under) the served directory
     pub outside: bool,
+    /// the extensions are passed in the dotted spelling (`".html"`), documented as equivalent
+    #[serde(default)]
+    pub dotted: bool,
     pub requests: Vec<(String, String)>,
 }
 
@@ -130,13 +134,8 @@ fn valid_name(s: &str) -> bool {
 fn in_domain_case(case: &Case) -> bool {
     // distinct file paths; a name is not both a directory and a file; names valid as route segments
     let mut seen = std::collections::BTreeSet::new();
-    let omit: Vec<&str> = case.omit.iter().map(|i| OMITTABLE[*i as usize % 3]).collect();
     for f in &case.files {
         if !valid_name(&f.stem) || f.dirs.iter().any(|d| !valid_name(d) || d.contains('.')) || f.dirs.len() > 3 {
-            return false;
-        }
-        // a stem that itself ends in an omitted extension would be truncated twice: stay clear of it
-        if omit.iter().any(|e| f.stem.ends_with(&format!(".{e}"))) {
             return false;
         }
         let mut p = f.dirs.clone();
@@ -200,7 +199,11 @@ fn concretize(case: &Case, r: &ReqRecipe) -> (String, String) {
             }
         }
         4 => format!("{base}{dir}/"),
-        5 => format!("{full}/"),
+        5 => match r.variant % 4 {
+            0 => format!("{full}//"),
+            1 => format!("{base}{dir}//"),
+            _ => format!("{full}/"),
+        },
         6 => match r.variant % 4 {
             0 => format!("{base}{dir}/../{}", f.filename()),
             1 => format!("{base}{dir}/%2e%2e/{}", f.filename()),
@@ -235,7 +238,7 @@ static CASE_NO: std::sync::atomic::AtomicU64 = std::sync::atomic::AtomicU64::new
 impl Property for C19 {
     type Case = Case;
     const ID: &'static str = "C19";
-    const RULE: &'static str = "generated: directory trees on a scratch file system (depth ≤ 3, ≤ 12 files, names over the route alphabet, all 16 supported extensions, empty/text/binary contents, index.html at any level), mount route of depth 0–2, omit_extensions ⊆ {html, txt, json}, × up to 30 requests (each file, each directory with and without trailing slash, the omitted extension put back or left out, .. / %2e%2e / %2F / // variants, near-miss names, a file outside the directory, other methods). Oracle: model map route → (bytes, MIME) computed from the tree; trees in which two files map to one route must be refused at start-up. Non-trivial tree = has a sub-directory and an index.html or an omitted extension; distinct by (tree, settings, request).";
+    const RULE: &'static str = "generated: directory trees on a scratch file system (depth ≤ 3, ≤ 12 files, names over the route alphabet, all 16 supported extensions, empty/text/binary contents, index.html at any level), mount route of depth 0–2, omit_extensions ⊆ {html, txt, json} in the plain or the dotted spelling, file names that themselves end in an extension (`page.html.html`, `index.html.txt`), × up to 30 requests (each file, each directory with and without trailing slash, two trailing slashes, the omitted extension put back or left out, .. / %2e%2e / %2F / // variants, near-miss names, a file outside the directory, other methods). Oracle: model map route → (bytes, MIME) computed from the tree; trees in which two files map to one route must be refused at start-up. Non-trivial tree = has a sub-directory and an index.html or an omitted extension; distinct by (tree, settings, request).";
     const ASSUMPTIONS: &'static [&'static str] = &[
         "entries are regular files with a supported extension, text files are UTF-8, names are valid route segments, directory names carry no dot (documented restrictions of Dir)",
         "with html omitted, `<dir>/index` may or may not answer (the statement names only the directory path)",
@@ -268,18 +271,18 @@ impl Property for C19 {
         let mount = vec(prop_oneof![Just("static".to_string()), Just("a".to_string()), Just("pub".to_string())], 0..=2);
         let omit = prop_oneof![3 => Just(vec![]), 2 => Just(vec![0u8]), 1 => Just(vec![0u8, 1]), 1 => Just(vec![2u8, 0, 1]), 1 => Just(vec![1u8])];
         let recipe = (0u8..12, any::<prop::sample::Index>(), 0u8..8, 0u8..9).prop_map(|(kind, pick, variant, method)| ReqRecipe { kind, pick: pick.index(1 << 16), variant, method });
-        (mount, omit, vec(file, 0..=12), any::<bool>(), vec(recipe, 1..=30))
-            .prop_map(|(mount, omit, files, outside, recipes)| {
+        (mount, omit, vec(file, 0..=12), any::<bool>(), vec(recipe, 1..=30), prop::bool::weighted(0.3))
+            .prop_map(|(mount, omit, files, outside, recipes, dotted)| {
                 // keep the case inside the domain by construction: drop files that clash as paths
                 let mut kept: Vec<FileDesc> = Vec::new();
                 for f in files {
-                    let mut c = Case { mount: mount.clone(), omit: omit.clone(), files: kept.clone(), outside, requests: vec![] };
+                    let mut c = Case { mount: mount.clone(), omit: omit.clone(), files: kept.clone(), outside, dotted, requests: vec![] };
                     c.files.push(f.clone());
                     if in_domain_case(&c) {
                         kept.push(f);
                     }
                 }
-                let mut case = Case { mount, omit, files: kept, outside, requests: vec![] };
+                let mut case = Case { mount, omit, files: kept, outside, dotted, requests: vec![] };
                 case.requests = recipes.iter().map(|r| concretize(&case, r)).collect();
                 case
             })
@@ -313,7 +316,8 @@ impl Property for C19 {
         let expected = model(case);
         let built = panic::catch(std::panic::AssertUnwindSafe(|| {
             let mut o = Ohkami::new(());
-            Routing::<()>::apply(make_dir(route, path, &omit), &mut o);
+            let spelt: Vec<&'static str> = case.omit.iter().map(|i| if case.dotted { DOTTED[*i as usize % 3] } else { OMITTABLE[*i as usize % 3] }).collect();
+            Routing::<()>::apply(make_dir(route, path, &spelt), &mut o);
             VerifRouter::new(o)
         }));
         let cleanup = || {
@@ -358,7 +362,10 @@ impl Property for C19 {
             }
             let path = target.split('?').next().unwrap();
             let norm = if path.len() > 1 && path.ends_with('/') { &path[..path.len() - 1] } else { path };
-            let want = if method == "GET" || method == "HEAD" { map.get(norm) } else { None };
+            // one trailing slash is the framework's documented normalisation; what is left must not end in another one
+            // (`//` is not `/`: a doubled separator)
+            let doubled = path.len() > 1 && norm.ends_with('/');
+            let want = if (method == "GET" || method == "HEAD") && !doubled { map.get(norm) } else { None };
             // don't-care regions
             if want.is_none() {
                 if html_omitted && norm.ends_with("/index") && map.contains_key(norm.trim_end_matches("/index")).max(norm == "/index" && map.contains_key("/")) {
